@@ -6,6 +6,7 @@ import (
 	"go/constant"
 	"go/token"
 	"go/types"
+	"regexp"
 	"sort"
 	"strings"
 
@@ -16,8 +17,55 @@ import (
 // the multiset of resolved key constructors (callee used for KeyValue.Key) and
 // of polarity calls (same-package callee with a constant bool argument).
 func keyCtors(w *core.World, f *core.FuncInfo, depth int, out map[string]int, seen map[*core.FuncInfo]bool) {
+	keyCtorsAt(w, f, depth, out, seen, nil, "")
+}
+
+// intoKVHelpers is set while a sibling-symmetry rule is re-decided after failing
+// on the plain pass: unnamed helpers that only build KeyValues are then looked
+// into per call site.  (The graphs are not used by these rules, so the engine's
+// own inline mode is switched off for the canonical forms to stay comparable
+// between the two paired functions.)
+var intoKVHelpers bool
+
+var paramRef = regexp.MustCompile(`\$\d+`)
+
+func withoutInline(w *core.World, fn func()) {
+	was, only := w.Inline, w.InlineFor
+	intoKVHelpers = was
+	w.Inline, w.InlineFor = false, nil
+	defer func() { w.Inline, w.InlineFor, intoKVHelpers = was, only, false }()
+	fn()
+}
+
+// keyCtorsAt: with subst/outer set, f is an unnamed helper looked into from one
+// call site of a paired function on the helper-inlined pass: its parameters are
+// replaced by the canonical arguments of that call and its keys stand under the
+// guards of the call, so that they compare with keys built in place.
+func keyCtorsAt(w *core.World, f *core.FuncInfo, depth int, out map[string]int, seen map[*core.FuncInfo]bool, subst []string, outer string) {
 	if f == nil || seen[f] {
 		return
+	}
+	place := func(s string) string {
+		if subst == nil {
+			return s
+		}
+		return paramRef.ReplaceAllStringFunc(s, func(m string) string {
+			var i int
+			fmt.Sscanf(m, "$%d", &i)
+			if i < len(subst) {
+				return subst[i]
+			}
+			return m
+		})
+	}
+	join := func(a, b string) string {
+		if a == "" {
+			return b
+		}
+		if b == "" {
+			return a
+		}
+		return a + "&" + b
 	}
 	seen[f] = true
 	defer delete(seen, f)
@@ -45,11 +93,11 @@ func keyCtors(w *core.World, f *core.FuncInfo, depth int, out map[string]int, se
 				if depth == 3 {
 					var args []string
 					for _, a := range call.Args {
-						args = append(args, core.CanonExpr(c, a))
+						args = append(args, place(core.CanonExpr(c, a)))
 					}
 					guard := ""
 					if at != nil {
-						if g := guardsOf(w, c, at, f); g != "" {
+						if g := join(outer, place(guardsOf(w, c, at, f))); g != "" {
 							guard = " under " + g
 						}
 					}
@@ -92,7 +140,15 @@ func keyCtors(w *core.World, f *core.FuncInfo, depth int, out map[string]int, se
 				}
 			}
 			if callee := w.FuncOf(fn); callee != nil && callee.Pkg == f.Pkg && depth > 0 {
-				keyCtors(w, callee, depth-1, out, seen)
+				if depth == 3 && intoKVHelpers && !core.IsMentioned(core.ShortName(fn)) && len(s.Args) == callee.Sig().Params().Len() && !callee.Sig().Variadic() && returnsOnlyKVs(callee, kvT) {
+					var sub []string
+					for _, a := range s.Args {
+						sub = append(sub, place(core.CanonExpr(c, a)))
+					}
+					keyCtorsAt(w, callee, 3, out, seen, sub, join(outer, place(guardsOf(w, c, s, f))))
+				} else {
+					keyCtors(w, callee, depth-1, out, seen)
+				}
 			}
 		}
 		return true
@@ -128,8 +184,10 @@ func symmetricPairD(r *Run, add, del string, exceptAddOnly map[string]string, de
 		return
 	}
 	ma, md := map[string]int{}, map[string]int{}
-	keyCtors(r.W, fa, depth, ma, map[*core.FuncInfo]bool{})
-	keyCtors(r.W, fd, depth, md, map[*core.FuncInfo]bool{})
+	withoutInline(r.W, func() {
+		keyCtors(r.W, fa, depth, ma, map[*core.FuncInfo]bool{})
+		keyCtors(r.W, fd, depth, md, map[*core.FuncInfo]bool{})
+	})
 	for k, why := range exceptAddOnly {
 		if _, ok := ma[k]; ok {
 			delete(ma, k)
@@ -153,6 +211,10 @@ func symmetricPairD(r *Run, add, del string, exceptAddOnly map[string]string, de
 // non-nil Value (remove side), and values obtained from a shared helper are
 // set to nil in a loop.
 func delValuesNil(r *Run, fn string, sharedHelpers ...string) {
+	withoutInline(r.W, func() { delValuesNil1(r, fn, sharedHelpers...) })
+}
+
+func delValuesNil1(r *Run, fn string, sharedHelpers ...string) {
 	f := r.Fn(fn)
 	if f == nil {
 		return
@@ -414,4 +476,22 @@ func init() {
 			}),
 		},
 	})
+}
+
+// returnsOnlyKVs: the helper's single result is a KeyValue, a pointer to one or
+// a slice of them (it builds records for its caller and has no error path).
+func returnsOnlyKVs(h *core.FuncInfo, kvT *types.TypeName) bool {
+	res := h.Sig().Results()
+	if res.Len() != 1 || kvT == nil {
+		return false
+	}
+	t := res.At(0).Type()
+	if sl, ok := t.(*types.Slice); ok {
+		t = sl.Elem()
+	}
+	if p, ok := t.(*types.Pointer); ok {
+		t = p.Elem()
+	}
+	n, ok := t.(*types.Named)
+	return ok && n.Obj() == kvT
 }
